@@ -342,14 +342,10 @@ def run(P: Program, rep: Report):
 
     rep.rule("C05.R6", "the round trip re-reads what the writer emitted: the reader must implement the dialect grammar (splitter product, content class, see C02.R2)")
     from .. import splitter_facts as _sf
-    try:
-        _sf.report_product(rep, P, "C05.R6", ["content"], "parsed content", after_abort=False)
-    except AnalysisError as e_:
-        if "anchor vanished" not in str(e_):
-            raise
-        # the splitter is organised in a way the product's role discovery does not recognise: this supporting rule is left undecided
-        # here (the splitter's own properties C01-C04 report the analysis error), the rules above stand on their own
-        rep.not_decided.append(f"C05.R6 (reader side): {e_}".format(e_=e_))
+    if _sf.guard(rep, "C05.R6", lambda: (_sf.report_product(rep, P, "C05.R6", ["content"], "parsed content", after_abort=False), True)[1]) is None:
+        # the product does not fit this organisation of the splitter: the grammar table stands in (bounded)
+        from .. import grammar_table as _gt
+        _gt.report(P, rep, "C05.R6", "grammar")
 
     from . import common as _cm
     _cm.default_stacks_are_fresh(P, rep, "C05.R2")
